@@ -178,6 +178,7 @@ namespace world
         int dim = 2;        // total real dimension for rv
         int pdim = 2;       // positional dimensions the obstacles live in
         double lo = 0, hi = 10;
+        double requestedFraction = 0.01;  // the resolution the application asked for (the oracle's, not read back from the spaces)
         std::vector<Obst> obst;
         ob::StateSpacePtr ss;
         ob::SpaceInformationPtr si;
@@ -483,6 +484,7 @@ namespace world
         if (late)
             w->si->setup();
         w->si->setStateValidityCheckingResolution(d.getd("resolution", 0.01));
+        w->requestedFraction = d.getd("resolution", 0.01);
         if (d.has("count_factor"))
             w->ss->setValidSegmentCountFactor((unsigned)d.geti("count_factor", 1));
         if (!late)
@@ -580,7 +582,9 @@ namespace world
     // ---- oracles ---------------------------------------------------------------------------------------
     // own segment count from the documented rule (count factor x ceil(distance / (fraction x extent)), maximum over
     // the components of a compound); deliberately not a call to validSegmentCount()
-    inline unsigned ownSegmentCount(const ob::StateSpace *sp, const ob::State *a, const ob::State *b)
+    // (the fraction is the one the application requested through SpaceInformation::setStateValidityCheckingResolution,
+    // which every component of a compound must have received: it is not read back from the spaces)
+    inline unsigned ownSegmentCount(const ob::StateSpace *sp, const ob::State *a, const ob::State *b, double frac)
     {
         // (Reeds-Shepp / Dubins override validSegmentCount with the leaf rule on their own curve length)
         if (sp->isCompound() && sp->getType() != ob::STATE_SPACE_REEDS_SHEPP && sp->getType() != ob::STATE_SPACE_DUBINS)
@@ -589,27 +593,27 @@ namespace world
             unsigned n = 0;
             for (unsigned i = 0; i < cs->getSubspaceCount(); i++)
                 n = std::max(n, ownSegmentCount(cs->getSubspace(i).get(), a->as<ob::CompoundState>()->components[i],
-                                                b->as<ob::CompoundState>()->components[i]));
+                                                b->as<ob::CompoundState>()->components[i], frac));
             return n;
         }
-        double len = sp->getLongestValidSegmentFraction() * sp->getMaximumExtent();
+        double len = frac * sp->getMaximumExtent();
         return sp->getValidSegmentCountFactor() * (unsigned)std::ceil(sp->distance(a, b) / len);
     }
 
     // largest spacing (in the space's own distance) between two checks of a validated motion, from the same rule: a
     // compound space takes the maximum count over its components and ignores its own count factor (the factor is not
     // propagated to components), so its spacing is bounded by the weighted sum of the components' spacings
-    inline double resolutionLength(const ob::StateSpace *sp)
+    inline double resolutionLength(const ob::StateSpace *sp, double frac)
     {
         if (sp->isCompound() && sp->getType() != ob::STATE_SPACE_REEDS_SHEPP && sp->getType() != ob::STATE_SPACE_DUBINS)
         {
             const auto *cs = sp->as<ob::CompoundStateSpace>();
             double l = 0;
             for (unsigned i = 0; i < cs->getSubspaceCount(); i++)
-                l += cs->getSubspaceWeight(i) * resolutionLength(cs->getSubspace(i).get());
+                l += cs->getSubspaceWeight(i) * resolutionLength(cs->getSubspace(i).get(), frac);
             return l;
         }
-        return sp->getLongestValidSegmentFraction() * sp->getMaximumExtent() / std::max(1u, sp->getValidSegmentCountFactor());
+        return frac * sp->getMaximumExtent() / std::max(1u, sp->getValidSegmentCountFactor());
     }
 
     struct SegmentVerdict
@@ -634,7 +638,7 @@ namespace world
             }
         for (size_t i = 0; i + 1 < v.size(); i++)
         {
-            unsigned n = std::max(1u, ownSegmentCount(w.ss.get(), v[i], v[i + 1]));
+            unsigned n = std::max(1u, ownSegmentCount(w.ss.get(), v[i], v[i + 1], w.requestedFraction));
             unsigned N = n * (unsigned)perStep;
             if (N > 200000)
                 N = 200000;
@@ -654,7 +658,7 @@ namespace world
             // space's resolution length (longest valid segment / count factor, the largest spacing between two
             // checks), an absolute length: a path made of many tiny motions (intermediate states) can legitimately
             // have one of them lie mostly inside an obstacle that hides between two checks of the validated motion.
-            double resLen = resolutionLength(w.ss.get());
+            double resLen = resolutionLength(w.ss.get(), w.requestedFraction);
             double steps = maxrun == 0 ? 0.0 : (double)(maxrun - 1) / N * w.ss->distance(v[i], v[i + 1]) / resLen;
             if (steps > r.worstRunSteps)
             {
